@@ -434,7 +434,52 @@ func swapCase(r rune) rune {
 	return unicode.ToUpper(r)
 }
 
+var foldLetters = []rune{'a', 'A', 'b', 'k', 'K', '\u212a', 's', 'S', '\u017f', 'i', 'I', '\u0130', 'é', 'É', 'ß', 'z', '漢'}
+
+// genFoldRegex: short letter patterns against subjects that differ from them only by case / simple folding (plus noise),
+// so that ignoring case decides the answer.
+func genFoldRegex(t *rapid.T) reCase {
+	letters := rapid.SliceOfN(rapid.SampledFrom(foldLetters), 1, 3).Draw(t, "letters")
+	var p, s strings.Builder
+	if rapid.IntRange(0, 3).Draw(t, "anchor") == 0 {
+		p.WriteString("^")
+	} else {
+		s.WriteString(string(rapid.SliceOfN(rapid.SampledFrom(alphabet), 0, 2).Draw(t, "noise")))
+	}
+	for _, r := range letters {
+		switch rapid.IntRange(0, 5).Draw(t, "form") {
+		case 0:
+			p.WriteString("[" + string(r) + "]")
+		case 1:
+			p.WriteString(string(r) + "+")
+		case 2:
+			p.WriteString("(" + string(r) + "|\\S\\d)")
+		default:
+			p.WriteString(string(r))
+		}
+		switch rapid.IntRange(0, 4).Draw(t, "variant") {
+		case 0:
+			s.WriteRune(r)
+		case 1:
+			s.WriteRune(swapCase(r))
+		case 2:
+			s.WriteRune(unicode.SimpleFold(r))
+		case 3:
+			s.WriteRune(unicode.SimpleFold(unicode.SimpleFold(r)))
+		default:
+			s.WriteRune(rapid.SampledFrom(foldLetters).Draw(t, "other"))
+		}
+	}
+	if rapid.IntRange(0, 3).Draw(t, "end") == 0 {
+		p.WriteString("$")
+	}
+	return reCase{S: s.String(), P: p.String(), CI: rapid.IntRange(0, 4).Draw(t, "ci") != 0, Nul: rapid.IntRange(0, 3).Draw(t, "nul") == 0}
+}
+
 func genRegex(t *rapid.T) reCase {
+	if rapid.IntRange(0, 4).Draw(t, "foldmode") == 0 {
+		return genFoldRegex(t)
+	}
 	p := genRe(t, 2, "re")
 	if rapid.IntRange(0, 11).Draw(t, "flag") == 0 {
 		p = rapid.SampledFrom([]string{"(?i)", "(?s)", "(?m)", "(?U)", "(?-i)"}).Draw(t, "flags") + p
